@@ -704,6 +704,13 @@ def check_programs(ck, exe, drv, evdir, progs, N, EVN, CLS_N, have_h2, known):
         m = mon[j] if have_h2 and j < len(mon) else None
         if uaf_panic and (m is None or not m["status"].startswith("reject")):
             # a handle panic that the event log does not explain (or no log): use after release
+            if m is None and F25 in known and r["msg"] == "invalid-callable" and \
+                    len(re.findall(r"\(\|x:float\| \{ g\(x\)", p["src"])) >= 4:
+                # hook absent: syntactic predicate of F25 (four or more temporaries calling the captured g next to an
+                # escaping closure, as generated by s_shared_upvalue / the corpus witness)
+                ck.add("known_" + F25)
+                ck.known(known[F25], f"{p['name']}: panic {r['msg']} at sample {r['at']} [syntactic predicate, no H2]")
+                continue
             ck.violation(f"use after release: {UAF_TAGS[r['msg']]} (panic at sample {r['at']})", rep)
             continue
         if m is not None:
@@ -740,6 +747,18 @@ def check_programs(ck, exe, drv, evdir, progs, N, EVN, CLS_N, have_h2, known):
                              f"(event #{f[1]}; {':'.join(f[6:])}): the operation retains / releases / frees differently "
                              f"from vm.rs as modelled", rep)
                 continue
+            if m["status"].startswith("dangling"):
+                f = m["status"].split(":")
+                what = (f"after sample {f[1]} the live closure wrapper ({f[2]},{f[3]}) refers to closure ({f[4]},{f[5]}), "
+                        f"which has been freed: a dangling handle (use after release at its next call)")
+                if F25 in known:
+                    ucl, uwr = unowned_releases(cases[j]["evfile"])
+                    if (int(f[4]), int(f[5])) in ucl:
+                        ck.add("known_" + F25)
+                        ck.known(known[F25], f"{p['name']}: {what}")
+                        continue
+                ck.violation(what, rep)
+                continue
             if m["status"].startswith("unsettled"):
                 ck.violation("an object is left with reference count 0 without being freed (" + m["status"] + ")", rep)
                 continue
@@ -770,11 +789,32 @@ def check_programs(ck, exe, drv, evdir, progs, N, EVN, CLS_N, have_h2, known):
     if not growing:
         return
     if not have_h2:
-        # direct observation only: no per-object evidence; growth is reported unless the store that grows is one in
-        # which the program allocates during dsp at all (coarse fallback predicate, used only without the hook)
+        # direct observation only (hook H2 absent): no per-object evidence.  Coarse syntactic class predicates on
+        # the source: closures can only leak where the program text makes closure values (a lambda, a function
+        # type, a scheduled call), boxes only where it declares a recursive type.
         for p, rep, r, g in growing:
-            ck.violation(f"live counts grow (N/2, N, 2N) = {g} and hook H2 is not available to attribute the growth",
-                         rep)
+            src = p["src"]
+            d_cl = g[2][0] - g[1][0]
+            d_hp = g[2][1] - g[1][1]
+            makes_closures = ("|" in src) or ("->" in src) or ("@" in src)
+            makes_boxes = "type rec" in src
+            cls = []
+            if d_cl > 0 or (d_hp > 0 and not makes_boxes):
+                if not makes_closures:
+                    ck.violation(f"live counts grow (N/2, N, 2N) = {g} in a program whose text makes no closure value "
+                                 f"(hook H2 absent: syntactic class predicates)", rep)
+                    continue
+                cls += [F24] if "@" in src else [F22 if d_hp > 0 else F21]
+            if d_hp > 0 and makes_boxes:
+                cls.append(F23)
+            if d_cl < 0 or d_hp < 0 or not cls or any(c not in known for c in cls):
+                ck.violation(f"live counts change (N/2, N, 2N) = {g} outside the known-finding classes "
+                             f"(hook H2 absent: syntactic class predicates)", rep)
+                continue
+            for c in cls:
+                ck.add("known_" + c)
+                ck.known(known[c], f"{p['name']}: (closures, heap) after N/2, N, 2N = {g} [syntactic predicate, no H2]")
+            ck.add("programs_growing_known")
         return
     ccases = []
     for j, (p, rep, r, g) in enumerate(growing):
